@@ -82,6 +82,10 @@ def cases(tier):
                             "devs": [list(devs[i]) for i in combo]})
                 if d == 0 and zone == zones[0]:
                     out.append(dict(out[-1], after=True))
+                if d == 0 and zone == zones[0] and model == models[0] and start == STARTS[0]:
+                    # history: a FITTED model object predicts this very data object with every aggregation, is then fitted again on
+                    # another building, and predicts the same data object once more
+                    out.append(dict(out[-1], after=False, refit=True))
     return out
 
 
@@ -190,6 +194,20 @@ def run_case(case):
         return {"rejected": f"data class raised {type(exc).__name__}: {str(exc)[:60]}"}
     key0 = {"usage": case["usage"]}
     viol = []
+    if case.get("refit"):
+        import opendsm.eemeter as em
+
+        def baseline(seed, **kw):
+            fr = ds.daily_frame(start="2021-01-01", days=365, tz=case["zone"], wseed=seed, seed=seed, noise=0.03, **kw)
+            return em.BillingBaselineData.from_series(ds.billing_reads(fr["observed"]), fr["temperature"], is_electricity_data=True)
+
+        model = em.BillingModel().fit(baseline(1), ignore_disqualification=True)
+        for a in (None, "monthly", "bimonthly"):
+            model.predict(data, aggregation=a, ignore_disqualification=True)
+        model.fit(baseline(2, base=90.0, hs=2.5, cs=0.2), ignore_disqualification=True)
+        key0["history"] = "object_refitted_between_predictions_of_one_data_object"
+        _orig = model.predict
+        model.predict = lambda d, aggregation=None, **kw: _orig(d, aggregation=aggregation, ignore_disqualification=True)
     if case.get("after"):
         # history: first ANOTHER kind of reporting set (with / without usage) is predicted with every aggregation by the same model and
         # by a second model object of the class; nothing of that may show in what follows
